@@ -250,8 +250,83 @@ pub mod proofs {
         kani::cover!(slot.n == 0, "slot without actions");
     }
 
+    /// Concrete history (quick tier): ids, order, cross-signal independence, stale
+    /// ids, removal by signal, the handler stays installed.
+    #[kani::proof]
+    #[kani::unwind(7)]
+    pub fn c05_q_concrete_history() {
+        reg::init_globals();
+        let a = ok(unsafe { register(SA, || hit(1)) });
+        let b = ok(unsafe { register_sigaction(SA, |_| hit(2)) });
+        let c = ok(unsafe { register(SB, || hit(3)) });
+        assert!(a.is_some() && b.is_some() && c.is_some(), "C05: registering a catchable signal failed");
+        let (ia, ib, ic) = (reg::sigid_parts(a.unwrap()).1, reg::sigid_parts(b.unwrap()).1, reg::sigid_parts(c.unwrap()).1);
+        assert!(ia != ib && ib != ic && ia != ic && ia < ib && ib < ic, "C05: the id handed out is not a fresh one (ids must never repeat)");
+        assert!(installed(SA) && installed(SB), "C05: the library's handler with SA_RESTART|SA_SIGINFO is not the disposition after register");
+        deliver(SA);
+        unsafe {
+            assert!(L::n == 2 && L::log[0] == 1 && L::log[1] == 2, "C02: a delivery did not run exactly its signal's actions once each in registration order");
+        }
+        clear_log();
+        assert!(unregister(a.unwrap()), "C05: unregister of a live id returned false");
+        assert!(!unregister(a.unwrap()), "C05: unregister of a stale id returned true");
+        assert!(!unregister(reg::make_sigid(SB, ia)), "C05: unregister of an id paired with the wrong signal returned true");
+        deliver(SA);
+        deliver(SB);
+        unsafe {
+            assert!(L::n == 2 && L::log[0] == 2 && L::log[1] == 3, "C05: removal of one action changed what other actions or signals do");
+        }
+        clear_log();
+        let d = ok(unsafe { register(SA, || hit(4)) });
+        assert!(d.is_some(), "C05: registering a catchable signal failed");
+        assert!(reg::sigid_parts(d.unwrap()).1 > ic, "C05: the id handed out is not a fresh one (ids must never repeat)");
+        #[allow(deprecated)]
+        let r = unregister_signal(SB);
+        assert!(r, "C05: unregister_signal's result does not say whether it removed anything");
+        deliver(SB);
+        deliver(SA);
+        unsafe {
+            assert!(L::n == 2 && L::log[0] == 2 && L::log[1] == 4, "C05: unregister_signal touched another signal or left actions behind");
+        }
+        assert!(installed(SA) && installed(SB), "C05: a taken-over signal lost the library's handler (with SA_RESTART|SA_SIGINFO)");
+        kani::cover!(true, "history completed");
+        kani::cover!(unsafe { K::sigaction_sets } == 2, "sigaction set exactly once per signal");
+    }
+
+    /// unregister of ANY (signal, u128 id) pair from a concrete three-action state
+    #[kani::proof]
+    #[kani::unwind(7)]
+    pub fn c05_q_unregister_any() {
+        reg::init_globals();
+        let mut b = reg::StateBuilder::new();
+        b.slot(SA, 0, 0);
+        install(SA);
+        b.action(SA, 1, reg::action_from(|_| hit(1)));
+        b.action(SA, 2, reg::action_from(|_| hit(2)));
+        b.slot(SB, 0, 0);
+        install(SB);
+        b.action(SB, 3, reg::action_from(|_| hit(3)));
+        b.publish(4);
+        let mut m = Model { a: MEMPTY, b: MEMPTY, next_id: 4 };
+        m.a.push(1, 1);
+        m.a.push(2, 2);
+        m.b.push(3, 3);
+        let id: u128 = kani::any();
+        let on_a: bool = kani::any();
+        let swaps0 = vshim::ptr_swaps();
+        let r = unregister(reg::make_sigid(if on_a { SA } else { SB }, id));
+        let e = if on_a { m.a.remove(id) } else { m.b.remove(id) };
+        assert!(r == e, "C05: unregister returned true for an id that is not registered (or false for a live one)");
+        assert!(agrees(SA, &m.a) && agrees(SB, &m.b), "C05: unregister changed something other than removing exactly that action");
+        assert!(reg::next_id() == 4, "C05: unregister changed the id counter (ids could be handed out twice)");
+        assert!(vshim::ptr_swaps() - swaps0 == if r { 1 } else { 0 }, "C02: unregister publishes exactly one snapshot iff it removed something");
+        kani::cover!(r && on_a && id == 1, "removed the first action");
+        kani::cover!(r && !on_a, "removed the other signal's action");
+        kani::cover!(!r && id == 3 && on_a, "live id paired with the wrong signal");
+    }
+
     /// A fixed history with symbolic parameters (quick tier): three registrations
-    /// on two signals, deliveries, an unregister of a symbolic id, removal by signal.
+    /// on two signals, deliveries, then an unregister of ANY (signal, id) pair.
     #[kani::proof]
     #[kani::unwind(7)]
     pub fn c05_q_history() {
@@ -267,8 +342,12 @@ pub mod proofs {
         m.a.push(idb, 2);
         m.b.push(idc, 3);
         m.next_id = 4;
+        assert!(installed(SA) && installed(SB), "C05: the library's handler with SA_RESTART|SA_SIGINFO is not the disposition after register");
         deliver(SA);
         assert!(log_is(&m.a), "C02: a delivery did not run exactly its signal's actions once each in registration order");
+        clear_log();
+        deliver(SB);
+        assert!(log_is(&m.b), "C02: a delivery ran actions registered for another signal (or not its own)");
         clear_log();
         // any id at all, paired with either signal
         let id: u128 = kani::any();
@@ -276,29 +355,12 @@ pub mod proofs {
         let r = unregister(reg::make_sigid(if on_a { SA } else { SB }, id));
         let e = if on_a { m.a.remove(id) } else { m.b.remove(id) };
         assert!(r == e, "C05: unregister returned true for an id that is not registered (or false for a live one)");
-        assert!(!unregister(reg::make_sigid(if on_a { SA } else { SB }, id)), "C05: unregister of a stale id returned true");
         assert!(agrees(SA, &m.a) && agrees(SB, &m.b), "C05: unregister changed something other than removing exactly that action");
-        deliver(SA);
-        assert!(log_is(&m.a), "C05: after a removal the signal's remaining actions do not run exactly once in order");
-        clear_log();
-        deliver(SB);
-        assert!(log_is(&m.b), "C05: removal on one signal changed what another signal does");
-        clear_log();
-        // a later registration gets a fresh id although one was freed
-        let d = ok(unsafe { register(SA, || hit(4)) });
-        assert!(d.is_some(), "C05: registering a catchable signal failed");
-        assert!(reg::sigid_parts(d.unwrap()).1 == 4, "C05: the id handed out is not a fresh one (ids must never repeat)");
-        m.a.push(4, 4);
-        #[allow(deprecated)]
-        let r2 = unregister_signal(SB);
-        assert!(r2 == (m.b.n > 0), "C05: unregister_signal's result does not say whether it removed anything");
-        m.b.n = 0;
-        assert!(agrees(SA, &m.a) && agrees(SB, &m.b), "C05: unregister_signal touched another signal or left actions behind");
-        deliver(SB);
-        assert!(unsafe { L::n } == 0, "C05: an action ran after its signal's actions had been removed");
-        assert!(installed(SA) && installed(SB), "C05: a taken-over signal lost the library's handler (with SA_RESTART|SA_SIGINFO)");
+        assert!(reg::next_id() == 4, "C05: unregister changed the id counter (ids could be handed out twice)");
+        assert!(installed(SA) && installed(SB), "C05: a taken-over signal lost the library's handler");
         kani::cover!(r && on_a && id == 1, "removed the first action");
-        kani::cover!(!r, "nothing removed");
+        kani::cover!(r && !on_a, "removed the other signal's action");
+        kani::cover!(!r && id == 3 && on_a, "live id paired with the wrong signal");
     }
 
     /// Symbolic history of three operations from the initial state.
